@@ -139,6 +139,9 @@ func newListFn(rs *Resid, fn *ast.FuncDecl) *listFn {
 		}
 	}
 	for _, st := range fn.Body.List {
+		if ls, ok := st.(*ast.LabeledStmt); ok {
+			st = ls.Stmt // a labelled loop is the loop
+		}
 		switch x := st.(type) {
 		case *ast.RangeStmt:
 			if l.loop == nil {
@@ -147,6 +150,16 @@ func newListFn(rs *Resid, fn *ast.FuncDecl) *listFn {
 		case *ast.ForStmt:
 			if l.forSt == nil {
 				l.forSt = x
+			}
+		}
+	}
+	// an index loop over the whole list is the range loop it abbreviates
+	if l.loop == nil && l.forSt != nil {
+		if conv := rangeOfIndexLoop(l.forSt); conv != nil {
+			if _, sliced := conv.X.(*ast.SliceExpr); !sliced {
+				l.loop = conv
+				// the rebuilt body has its own statements: definitions are looked up there
+				l.defs = localDefs(&ast.BlockStmt{List: append(append([]ast.Stmt{}, fn.Body.List...), conv)})
 			}
 		}
 	}
@@ -729,14 +742,23 @@ func checkUnique(l *listFn) []sideIssue {
 		}
 		return out
 	}
-	if l.forSt == nil {
+	// the loop over the positions of the list: for i := 0; i < len(list); i++, or for i := range list
+	var body *ast.BlockStmt
+	var loopStmt ast.Stmt
+	i, u := "", ""
+	switch {
+	case l.forSt != nil:
+		body, loopStmt = l.forSt.Body, l.forSt
+		if be, ok := l.forSt.Cond.(*ast.BinaryExpr); ok {
+			i = canon(be.X)
+		}
+	case l.loop != nil && l.loop.Value == nil && canon(l.loop.X) == list:
+		body, loopStmt = l.loop.Body, l.loop
+		i = keyName(l.loop)
+	default:
 		return []sideIssue{l.issue(l.fn, "shape", "no index loop")}
 	}
 	// cursors: read cursor i from the loop, write cursor u from `return list[:u]`
-	i, u := "", ""
-	if be, ok := l.forSt.Cond.(*ast.BinaryExpr); ok {
-		i = canon(be.X)
-	}
 	for _, r := range returnsIn(l.fn) {
 		if len(r.Results) == 1 {
 			if sl, ok := r.Results[0].(*ast.SliceExpr); ok && canon(sl.X) == list && sl.High != nil {
@@ -750,10 +772,25 @@ func checkUnique(l *listFn) []sideIssue {
 	cur := list + "[" + i + "]"
 	// the membership flag is set only under equal(list[index], list[i]) with index drawn from the bucket of hash(list[i])
 	var flag string
-	ast.Inspect(l.forSt.Body, func(n ast.Node) bool {
-		as, ok := n.(*ast.AssignStmt)
-		if ok && as.Tok == token.ASSIGN && len(as.Lhs) == 1 && len(as.Rhs) == 1 && canon(as.Rhs[0]) == "true" {
+	skips := false // the duplicate is skipped with `continue <label of the loop over the list>` instead of a flag
+	outerLabel := ""
+	ast.Inspect(l.fn.Body, func(n ast.Node) bool {
+		if ls, ok := n.(*ast.LabeledStmt); ok && ls.Stmt == loopStmt {
+			outerLabel = ls.Label.Name
+		}
+		return true
+	})
+	ast.Inspect(body, func(n ast.Node) bool {
+		var site ast.Node
+		if as, ok := n.(*ast.AssignStmt); ok && as.Tok == token.ASSIGN && len(as.Lhs) == 1 && len(as.Rhs) == 1 && canon(as.Rhs[0]) == "true" {
 			flag = canon(as.Lhs[0])
+			site = as
+		}
+		if br, ok := n.(*ast.BranchStmt); ok && br.Tok == token.CONTINUE && br.Label != nil && outerLabel != "" && br.Label.Name == outerLabel {
+			skips = true
+			site = br
+		}
+		if as := site; as != nil {
 			eqOK := false
 			for _, g := range guardsOf(l.fn.Body, as) {
 				c, isCall := unparen(g.e).(*ast.CallExpr)
@@ -782,14 +819,18 @@ func checkUnique(l *listFn) []sideIssue {
 		}
 		return true
 	})
-	if flag == "" {
-		out = append(out, l.issue(l.forSt, "no-membership", "no membership decision found"))
+	if flag == "" && !skips {
+		out = append(out, l.issue(loopStmt, "no-membership", "no membership decision found"))
 	}
-	// u advances / list[u] written / table extended only when the flag is false
+	// u advances / list[u] written / table extended only when the flag is false (with a labelled continue the statements
+	// after the scan of the bucket are reached only when no kept element was equal)
 	notContained := func(gs []guard) bool {
+		if skips && flag == "" {
+			return true
+		}
 		return hasGuard(gs, false, func(e ast.Expr) bool { return canon(e) == flag })
 	}
-	ast.Inspect(l.forSt.Body, func(n ast.Node) bool {
+	ast.Inspect(body, func(n ast.Node) bool {
 		switch x := n.(type) {
 		case *ast.IncDecStmt:
 			if canon(x.X) == u && !notContained(guardsOf(l.fn.Body, x)) {
